@@ -633,7 +633,7 @@ pub fn check_c01(tier: &str) -> i32 {
         "model_checking",
         "every request of the single-request space and every sequence of <= D requests over a 24-symbol alphabet is delivered to the production server session (TCP and RTU framing, 3 unit maps, 3 application states); after every request the bytes written are compared with the reference server. distinct = distinct (reply bytes, number of handler calls) observations",
     );
-    let depth = if rep.thorough() { 5 } else { 3 };
+    let depth = if rep.thorough() { 5 } else { 4 };
     rep.bounds = json!({"sequence_depth": depth, "alphabet": 24, "framings": ["tcp", "rtu"], "unit_maps": 3});
     run_sweeps("C01", &mut rep, "R");
     let cfgs = base_cfgs(None);
@@ -654,7 +654,7 @@ pub fn check_c02(tier: &str) -> i32 {
         "model_checking",
         "same executions as C01, with and without an authorization handler; the ordered log of the instrumented RequestHandler (writes exact incl. collected iterator items and len(); reads within the requested range of the addressed unit) and the application state after each sequence are compared with the reference server",
     );
-    let depth = if rep.thorough() { 5 } else { 3 };
+    let depth = if rep.thorough() { 5 } else { 4 };
     rep.bounds = json!({"sequence_depth": depth.min(4), "alphabet": 24});
     run_sweeps("C02", &mut rep, "H");
     let mut cfgs = base_cfgs(None);
@@ -783,7 +783,7 @@ pub fn check_c17(tier: &str) -> i32 {
         "model_checking",
         "for every handler map of 0..3 units, every destination 0..=255 and each of the eight request kinds in three flavours (valid, failing in the handler, malformed) plus unknown function codes, on RTU and TCP framing, the bytes written and the handler log are compared with the reference server (silence unless unicast to a configured unit; RTU broadcast writes reach every unit exactly once and are never answered; broadcast reads ignored); then all sequences of <= D events over a 12-symbol alphabet mixing broadcast, unicast and sentinel reads",
     );
-    let depth = if rep.thorough() { 5 } else { 3 };
+    let depth = if rep.thorough() { 6 } else { 4 };
     rep.bounds = json!({"sequence_depth": depth, "destinations": 256, "unit_maps": 4, "kinds": 24});
     let mut kinds = c17_kinds();
     kinds.push(("unknown-fc", vec![0x2B, 1, 2]));
@@ -909,7 +909,7 @@ pub fn check_c08(tier: &str) -> i32 {
         "production server session with AuthorizationType::Handler(handler, role): all sequences of <= D requests over an 18-symbol alphabet (eight kinds with two ranges each, malformed, unknown function, unconfigured unit, observing read) x policies (per-function masks, unit/range/index/role predicates, stateful first-only and alternating, the built-in read-only policy) x role strings; the interleaved log of authorization and point-handler calls, the reply bytes and the final application state are compared with the reference server",
     );
     let thorough = rep.thorough();
-    let depth = if thorough { 3 } else { 2 };
+    let depth = if thorough { 4 } else { 3 };
     let apps = app_variants();
     let roles: Vec<String> = vec!["".into(), "operator".into(), "viewer".into(), "Ωμέγα".into(), "r".repeat(300)];
     let mut cfgs = vec![];
